@@ -205,6 +205,23 @@ impl Printable for SyntaxToken {
 	}
 }
 
+/// Text which may contain newlines and tabs; the printer wants those as signals
+fn print_verbatim(mut text: &str, out: &mut PrintItems) {
+	while !text.is_empty() {
+		let pos = text.find(['\n', '\t']).unwrap_or(text.len());
+		p!(out, string(text[..pos].to_string()));
+		text = &text[pos..];
+		if !text.is_empty() {
+			match text.as_bytes()[0] {
+				b'\n' => p!(out, nl),
+				b'\t' => p!(out, tab),
+				_ => unreachable!(),
+			}
+			text = &text[1..];
+		}
+	}
+}
+
 impl Printable for Text {
 	fn print(&self, out: &mut PrintItems) {
 		if matches!(self.kind(), TextKind::StringBlock) {
@@ -226,14 +243,23 @@ impl Printable for Text {
 				if ele.is_empty() {
 					p!(out, >ii nl <ii);
 				} else {
-					p!(out, string(ele.to_string()) nl);
+					print_verbatim(ele, out);
+					p!(out, nl);
 				}
 			}
 			p!(out, <i str("|||"));
 
 			return;
 		}
-		p!(out, string(format!("{}", self)));
+		let text = format!("{self}");
+		// Continuation lines of a multi-line string literal are a part of its value, they must not be indented
+		let first_line = text.find('\n').unwrap_or(text.len());
+		print_verbatim(&text[..first_line], out);
+		if first_line != text.len() {
+			p!(out, >ii);
+			print_verbatim(&text[first_line..], out);
+			p!(out, <ii);
+		}
 	}
 }
 impl Printable for Number {
